@@ -3,9 +3,11 @@
 spec/Shadow.tla (three parts, one module):
   divmod : cython.cdiv / cython.cmod.  Reference = C semantics (declaratively validated TruncDiv/TruncRem; doubles as
            quarters), impl-shaped = transcription of Shadow.cdiv / Shadow.cmod.  TLC: every pair of -128..255 (covers
-           signed/unsigned char and their mixes), the 16/31-bit boundary grid, the quarter grid for doubles.
+           signed/unsigned char and their mixes), the 16/31-bit boundary grid, the quarter grid for doubles; proves that
+           the transcription agrees with the reference on every demanded cell (ints and doubles).
   cast   : cython.cast(T, v) over C integer/double/bint targets x typed and object sources x boundary values, and
-           cast(T, obj, typecheck=) for Python types; reference = C conversion, impl-shaped = Shadow.cast.
+           cast(T, obj, typecheck=) for Python types; reference = C conversion, impl-shaped = Shadow.cast; TLC proves
+           agreement on every demanded cell.
   prog   : small-step machine for typed pure-mode programs (declare / locals / annotations / returns / cfunc / ccall /
            inline / exceptval / cclass methods / helper calls / cdiv / cmod / cast / for-range / if) with range
            side-conditions: behaviours that leave a declared C range end "pruned" (counted), the others carry the
@@ -13,8 +15,9 @@ spec/Shadow.tla (three parts, one module):
 Binding B1, three-way.  Every demanded cell / kept behaviour is executed (i) by CPython with cython.py + Cython/Shadow.py of
 the snapshot on the *same* .py module and (ii) on the compiled module; both must equal S.  P (Python integer / Fraction
 oracle, lib_puremode.Sem) must equal S everywhere (else spec drift) and alone decides 64-bit wide cells and wide programs
-(TLC integers are 32-bit).  An interpreted result that deviates from S otherwise than the spec's transcription of Shadow.py predicts is
-reported with the model flags cleared (never matched by the known finding for the modelled deviation).
+(TLC integers are 32-bit).  The transcription predicts the interpreted value of every table cell (`shadow_model`, now always
+equal to the demand); the two fidelity counters `modelled_shadow_deviation_not_observed` (predicted, not observed) and
+`shadow_differs_from_transcription` (observed, not predicted -- always also a disagreement) are 0 on a faithful model.
 """
 import collections
 import concurrent.futures
@@ -157,6 +160,7 @@ def run(tier, seed):
             rep.disagree({"part": "build", "module": m["name"], "stage": b.stage}, "build-failed", {"errors": (b.errors or "")[-3000:]})
 
     stats = collections.Counter()
+    stats["modelled_shadow_deviation_not_observed"] = stats["shadow_differs_from_transcription"] = 0     # fidelity counters
     samples = []
 
     # =====================================================================================
@@ -203,6 +207,8 @@ def run(tier, seed):
     n_dev_cells = 0
     for r in rows8 + rowsw:
         a, op = r["a"], r["op"]
+        if r["devs"]:         # ShadowIntAgrees / ShadowDblAgrees hold: no deviation class is modelled
+            core.die("model reports deviations of Shadow.%s (%s)" % (op, r["kind"]))
         if r["kind"] == "i":
             for bs, want in r["row"].items():
                 b = int(bs)
@@ -214,8 +220,6 @@ def run(tier, seed):
                     add_dm(op, a, b, want, "tlc-row", a in dense_a or not (-128 <= a <= 255))
                 else:
                     add_dm(op, a, b, want, "tlc-row", True)
-            if r["devs"]:
-                core.die("model reports integer deviations of Shadow.%s" % op)
         else:
             for bs, want in r["row"].items():
                 b = int(bs)
@@ -224,9 +228,8 @@ def run(tier, seed):
                 if pw != want / 4.0:
                     rep.spec_drift("Shadow.DMDemand (doubles) vs float oracle", {"op": op, "a": fa, "b": fb_, "spec": want / 4.0, "python": pw})
                 sh = r["sh"][bs]
-                dev = sh != want
-                n_dev_cells += dev
-                desc = {"part": "divmod", "kind": "double", "op": op, "model_flags": "cdiv_double_dev" if dev else ""}
+                n_dev_cells += sh != want
+                desc = {"part": "divmod", "kind": "double", "op": op, "model_flags": ""}
                 for v in variants:
                     tb.add("%s%s_double" % (op, v), [calls.fenc(fa), calls.fenc(fb_)], dict(desc, style=v or "annot"), ("f", want / 4.0),
                            ("f", want / 4.0) if v in ("", "d") else SKIP, "tlc-row", {"shadow_model": ("f", sh / 4.0)})
@@ -272,12 +275,13 @@ def run(tier, seed):
         if Tt in lp.PY_T:
             fn = "pycast_%s%s" % (Tt, "_tc" if r["tc"] else "")
             desc = {"part": "cast", "target": Tt, "source": "py:" + st, "typecheck": r["tc"], "matching_type": Tt in ("object", st),
-                    "model_flags": "cast_typecheck_ignored" if (d["st"] == "exc" and sh["k"] == "conv") else ""}
+                    "model_flags": ""}
             if d["st"] == "nodemand":
                 stats["cast_nodemand_" + d["why"]] += 1
                 continue
             exp = PYX[st] if d["st"] == "ok" else "E:TypeError"
-            shx = PYX[st] if sh["k"] == "o" else ("converted", Tt)
+            shx = "E:" + sh["why"] if sh["st"] == "exc" else PYX[st] if sh["k"] == "o" else ("converted", Tt)
+            n_dev_cells += sh != d
             (tco if fn == "pycast_object_tc" else tb).add(fn, [PYV[st]], desc, exp, exp, "tlc-cell", {"shadow_model": shx})
             continue
         sk = lp.kind(st)
@@ -296,7 +300,8 @@ def run(tier, seed):
             continue
         arg = arg_of(st, v, True)
         desc = {"part": "cast", "target": Tt, "target_kind": lp.kind(Tt), "source": r["form"] + ":" + st, "source_kind": sk,
-                "model_flags": "cast_int_from_bool" if (sh != d and lp.kind(Tt) == "i" and sk == "b") else ""}
+                "model_flags": ""}
+        n_dev_cells += sh != d
         fns = ["cast_%s_from_%s" % (Tt, st)] if r["form"] == "c" else ["cast_%s_from_py" % Tt, "decl_%s_from_py" % Tt]
         for fn in fns:
             tb.add(fn, [arg], dict(desc, via="declare" if fn.startswith("decl") else "cast"), cval(d), cval(d), "tlc-cell", {"shadow_model": cval(sh)})
@@ -315,6 +320,8 @@ def run(tier, seed):
                 desc = {"part": "cast", "target": Tt, "target_kind": "i", "source": "c:" + S, "source_kind": "i", "via": "cast", "model_flags": ""}
                 tb.add("cast_%s_from_%s" % (Tt, S), [calls.ienc(v)], desc, v, v, "python-oracle")
     n_tab = len(tb.calls)
+    if n_dev_cells:       # CastAgrees / ShadowDblAgrees were proved by TLC: the published transcription values must equal the demands
+        core.die("the model predicts %d deviations of Shadow.py although TLC proved agreement" % n_dev_cells)
 
     # =====================================================================================
     # programs
@@ -440,8 +447,8 @@ def run(tier, seed):
                 d2 = dict(desc, side="interp")
                 if not same(oi, exp_i):
                     if extra and "shadow_model" in extra:
-                        # the spec's transcription of Shadow.py predicts a value for this cell: a deviation that is not the
-                        # modelled one is a different defect (never covered by the known finding for the modelled one)
+                        # the spec's transcription of Shadow.py predicts a value for this cell (the demand, as no deviation is
+                        # modelled): Shadow.py does something the transcription does not describe
                         shm = extra["shadow_model"]
                         got = lp.dec_obs(oi)
                         as_modelled = (got == shm) if not (isinstance(shm, tuple) and shm[0] == "converted") else \
@@ -468,7 +475,7 @@ def run(tier, seed):
         "programs": len(progs), "wide_programs_python_oracle": len(wprogs), "program_modules": len(mods),
         "program_behaviours": dict(outcome), "pruned_by_reason": dict(pruned), "wide_program_behaviours": dict(wout),
         "table_calls": n_tab, "divmod_calls": n_dm, "program_calls_from_tlc": n_tlc_cases,
-        "calls_compiled": n_c, "calls_interpreted": n_i, "double_cells_where_model_predicts_shadow_deviation": n_dev_cells,
+        "calls_compiled": n_c, "calls_interpreted": n_i, "cells_where_model_predicts_shadow_deviation": n_dev_cells,
         "no_demand": dict(stats), "programs_rejected_by_compiler": sum(len(m["dropped"]) for m in mods),
         "rule": "cdiv/cmod: every pair of -128..255 (signed/unsigned char, mixed), 16/31-bit boundary grid, quarter grid for doubles, "
                 "64-bit grid + seeded random pairs (Python oracle) x 4 declaration styles; cast: 8 C targets x 10 sources x boundary values "
